@@ -867,12 +867,12 @@ func glueTyped(r *Rng, st *Stats, n int) {
 	for i := 0; i < n/4+8; i++ {
 		ie := genImportEquals(r)
 		kinds["import-equals"]++
-		minWS := r.Chance(30)
+		minWS, minSyn := r.Chance(30), r.Chance(40)
 		mk := func(l api.Loader) api.TransformOptions {
-			return api.TransformOptions{Loader: l, LogLevel: api.LogLevelSilent, MinifyWhitespace: minWS, TsconfigRaw: agreeTsconfig}
+			return api.TransformOptions{Loader: l, LogLevel: api.LogLevelSilent, MinifyWhitespace: minWS, MinifySyntax: minSyn, TsconfigRaw: agreeTsconfig}
 		}
 		// namespaces are not JavaScript: the untyped counterpart also goes through the ts loader
-		cases = append(cases, gcase{p: ie.p, opts: fmt.Sprintf("%s minify-whitespace=%v (both sides ts loader)", ie.desc, minWS), tsLoader: api.LoaderTS, jsLoader: api.LoaderTS, mk: mk})
+		cases = append(cases, gcase{p: ie.p, opts: fmt.Sprintf("%s minify-whitespace=%v minify-syntax=%v (both sides ts loader)", ie.desc, minWS, minSyn), tsLoader: api.LoaderTS, jsLoader: api.LoaderTS, mk: mk})
 	}
 	for i, c := range cases {
 		evalTypedCase(st, c, i < 3)
@@ -910,14 +910,6 @@ func evalTypedCase(st *Stats, c gcase, sample bool) {
 		// re-run (determinism) before reporting
 		_, again := transformText(c.p.ts, c.mk(c.tsLoader))
 		if again != "" {
-			if strings.Contains(tsErr, "Transforming non-identifier array rest patterns") {
-				// known finding J: the speculative arrow-parameter parse after "?" logs a lowering error
-				if _, e := transformText(c.p.js, c.mk(c.tsLoader)); e != "" {
-					input["scenario"] = "known-J"
-					st.Fail("known-J-parenthesised-spread-after-question-rejected-by-ts-loader", input, tsErr, "accepted like under the js loader")
-					return
-				}
-			}
 			st.Fail("typed-program-rejected", input, tsErr, "accepted like its untyped counterpart")
 		}
 		return
